@@ -240,3 +240,22 @@ def check_pickler_selection(seq: List[int], at: int, later: int) -> bool:
     finally:
         red.set_loky_pickler(saved)
     return ok
+
+
+def check_partial_roundtrip_variants(backend: int, has_kw: bool, has_attr: bool, x: int) -> bool:
+    """
+    pre: 0 <= backend <= 1 and 0 <= x <= 2
+    post: _
+    """
+    # functools.partial with/without keywords and with/without instance attributes, through the real
+    # dumps + loads of both back-ends: equal func behaviour, args, keywords and call results
+    backend, x = _conc(backend, 1), _conc(x, 2)
+    p = fakes.PARTIALS[(bool(has_kw), bool(has_attr))]
+    saved = red._loky_pickler_name
+    red.set_loky_pickler(["cloudpickle", "pickle"][backend])
+    try:
+        back = pickle.loads(red.dumps(p))
+    finally:
+        red.set_loky_pickler(saved)
+    return (back.args == p.args and back.keywords == p.keywords and back(x) == p(x)
+            and back(x, z=x) == p(x, z=x) and back.func(7, q=1) == fakes.kwfn(7, q=1))
